@@ -1,6 +1,9 @@
 import HidVerif.Proofs.LexSymbols
 import HidVerif.Proofs.LexInt
 import HidVerif.Proofs.LexLayout
+import HidVerif.Proofs.LexQuoted
+import HidVerif.Proofs.LexEscaped
+import HidVerif.Proofs.LexTouch
 /-!
 # C12 — lexing is exact and independent of layout
 
@@ -11,7 +14,8 @@ Proved: (i) integer literals for every digit string, base and underscore placeme
 (iii) keyword / flavour classification for the whole keyword table; (iv) longest symbol match,
 independent of the order among equal-length symbols; escape table; (v) layout independence and
 (vi) span exactness for every source in layout form (`lex_of_layout`, `layout_independence`,
-`span_exact`, with symbols and identifiers shown to be pieces).  The re-layout searcher runs the
+`span_exact`, with symbols, identifiers, integer literals of all four bases and plain string and
+character literals shown to be pieces).  The re-layout searcher runs the
 same statement through the real lexer.
 -/
 namespace HidVerif.Props.C12
@@ -77,12 +81,14 @@ example : readToken (cps "\"a\\x41\\u{e9}\\n\"") = .ok (.str [97, 65, 0xC3, 0xA9
 
 /-! ## (v), (vi): layout independence and span exactness, for every source text of the layout form -/
 
-/-- **C12 (v)+(vi)**: a source is *laid out* when every line is a sequence of token texts, each
-`SelfDelim` (wherever white space or the end of the line follows, `readToken` reads exactly that
-text as that token), separated by white space (`WFLine`: any mix of blanks and tabs; non-empty
-between two tokens), optionally ending in white space and a `//` comment; lines may be empty or
-comment-only.  For every such source `lex` returns exactly the tokens of the texts, in order,
-each with the span of exactly its text, and ends normally at the end of the last token. -/
+/-- **C12 (v)+(vi)**: a source is *laid out* when every line is a sequence of token texts, each preceded
+by a white-space separator - any mix of blanks and tabs, *possibly empty* - and each reading as its token in
+front of the rest of its line (`ReadsAs`: `readToken` returns that token, consumes exactly that text, and
+text plus rest do not begin a comment; `WFLine`), optionally ending in white space and a `//` comment; lines
+may be empty or comment-only.  For every such source `lex` returns exactly the tokens of the texts, in
+order, each with the span of exactly its text, and ends normally at the end of the last token.
+`ReadsAs` holds for a `SelfDelim` text in front of white space (`SelfDelim.readsAs`) and, without white
+space, under the follow conditions of `touching_*` below. -/
 theorem lex_of_layout (lines : List (List Piece × Line)) (hwf : ∀ l ∈ lines, WFLine l.1 l.2) :
     lex (lines.map render) = (lexemesFrom 0 lines, .eof (lastOf ⟨0, 0⟩ (lexemesFrom 0 lines))) :=
   lex_layout lines hwf
@@ -110,6 +116,104 @@ theorem identifiers_are_pieces (c : CP) (r : Line) (hc : isIdStart c = true) (hr
     (hk : keywordOf (c :: r) = none) : SelfDelim (c :: r) (.ident (c :: r) .none) :=
   selfDelim_ident c r hc hr hk
 
+/-- … by every decimal literal: an ASCII digit, then ASCII digits each optionally preceded by one underscore;
+the token carries the positional value … -/
+theorem decimal_literals_are_pieces (c0 : CP) (tl : List (Bool × CP)) (h0 : asciiDigit c0) (htl : ∀ x ∈ tl, asciiDigit x.2) :
+    SelfDelim (c0 :: renderTail tl) (.int (ofDigits 10 ((c0 - 48) :: tl.map (fun x => x.2 - 48)))) :=
+  selfDelim_decimal c0 tl h0 htl
+
+/-- … by every `0x`, `0o` and `0b` literal with at least one digit of its class (underscores as above) … -/
+theorem prefixed_literals_are_pieces (d0 : CP) (v0 : Nat) (tl : List (Bool × CP)) (val : CP → Nat) :
+    ((hexVal d0 = some v0 ∧ ∀ x ∈ tl, hexVal x.2 = some (val x.2)) →
+      SelfDelim (48 :: 120 :: d0 :: renderTail tl) (.int (ofDigits 16 (v0 :: tl.map (fun x => val x.2))))) ∧
+    ((asciiIn 48 55 d0 = some v0 ∧ ∀ x ∈ tl, asciiIn 48 55 x.2 = some (val x.2)) →
+      SelfDelim (48 :: 111 :: d0 :: renderTail tl) (.int (ofDigits 8 (v0 :: tl.map (fun x => val x.2))))) ∧
+    ((asciiIn 48 49 d0 = some v0 ∧ ∀ x ∈ tl, asciiIn 48 49 x.2 = some (val x.2)) →
+      SelfDelim (48 :: 98 :: d0 :: renderTail tl) (.int (ofDigits 2 (v0 :: tl.map (fun x => val x.2))))) :=
+  ⟨fun h => selfDelim_hex d0 v0 h.1 tl val h.2, fun h => selfDelim_oct d0 v0 h.1 tl val h.2, fun h => selfDelim_bin d0 v0 h.1 tl val h.2⟩
+
+/-- … by every string literal without escapes, whatever it contains (white space and `//` included): the token
+holds the UTF-8 bytes of the characters … -/
+theorem string_literals_are_pieces (body : Line) (enc : List (List Nat)) (hb : ∀ c ∈ body, c ≠ 92 ∧ c ≠ 34)
+    (henc : body.mapM utf8 = some enc) : SelfDelim (34 :: (body ++ [34])) (.str enc.flatten) :=
+  selfDelim_string body enc hb henc
+
+/-- … and by every character literal of one ASCII character other than `'` and `\`.  String literals with escape
+sequences: `escaped_string_literals_are_pieces` below. -/
+theorem char_literals_are_pieces (c : CP) (h1 : c ≠ 39) (h2 : c ≠ 92) (h3 : c < 128) : SelfDelim [39, c, 39] (.chr c) :=
+  selfDelim_char c h1 h2 h3
+
+/-- string literals *with* escape sequences: the body is any sequence of segments - a plain run followed by one complete
+escape sequence - and a final plain run; the token holds the UTF-8 bytes of the runs and the bytes of the escapes in order.
+Every simple escape of the regenerated table and every `\xHH` is a complete escape sequence (`\u{…}` is not covered). -/
+theorem escaped_string_literals_are_pieces (segs : List Seg) (hs : ∀ s ∈ segs, SegOK s) (last : Line) (lenc : List (List Nat))
+    (hl : ∀ c ∈ last, c ≠ 92 ∧ c ≠ 34) (hlenc : last.mapM utf8 = some lenc) :
+    SelfDelim (34 :: (bodyText segs ++ (last ++ [34]))) (.str (bodyBytes segs ++ lenc.flatten)) :=
+  selfDelim_string_esc segs hs last lenc hl hlenc
+
+theorem simple_and_hex_escapes_complete :
+    (∀ c v bs, escapeCodes.lookup c = some v → utf8 v = some bs → IsEsc [92, c] bs) ∧
+    (∀ a b x y, hexVal a = some x → hexVal b = some y → IsEsc [92, 120, a, b] [16 * x + y]) :=
+  ⟨isEsc_simple, isEsc_hex⟩
+
+/-- `"a\n\x41 b"` : two segments and a final run -/
+example : SelfDelim (cps "\"a\\n\\x41 b\"") (.str [97, 10, 65, 32, 98]) :=
+  selfDelim_string_esc [([97], [[97]], [92, 110], [10]), ([], [], [92, 120, 52, 49], [65])]
+    (by
+      intro s hs
+      simp only [List.mem_cons, List.not_mem_nil, or_false] at hs
+      rcases hs with rfl | rfl
+      · exact ⟨by decide, by decide, isEsc_simple 110 10 [10] (by decide) (by decide)⟩
+      · exact ⟨by decide, by decide, isEsc_hex 52 49 4 1 (by decide +kernel) (by decide +kernel)⟩)
+    [32, 98] [[32], [98]] (by decide) (by decide)
+
+/-- keywords of the table, as words on their own, are pieces denoting their keyword token … -/
+theorem keywords_are_pieces (c : CP) (r : Line) (k : String) (hc : isIdStart c = true) (hr : ∀ d ∈ r, isWord d = true)
+    (hk : keywordOf (c :: r) = some k) : SelfDelim (c :: r) (.enum k) :=
+  selfDelim_keyword c r k hc hr hk
+
+/-- … and so are `@name` and `!name` for names that are not keywords (`!` is not taken for the start of `!=`) -/
+theorem flavoured_names_are_pieces (c : CP) (r : Line) (hc : isIdStart c = true) (hr : ∀ d ∈ r, isWord d = true)
+    (hk : keywordOf (c :: r) = none) :
+    SelfDelim (64 :: c :: r) (.ident (c :: r) .you) ∧ SelfDelim (33 :: c :: r) (.ident (c :: r) .defeat) :=
+  ⟨selfDelim_flavoured 64 .you (Or.inl ⟨rfl, rfl⟩) c r hc hr hk, selfDelim_flavoured 33 .defeat (Or.inr ⟨rfl, rfl⟩) c r hc hr hk⟩
+
+example : SelfDelim (cps "break") (.enum "StmtToken.BREAK") ∧ SelfDelim (cps "@is_you") (.ident (cps "is_you") .you)
+    ∧ SelfDelim (cps "!f") (.ident (cps "f") .defeat) :=
+  ⟨selfDelim_keyword 98 (cps "reak") _ (by decide) (by decide +kernel) (by decide +kernel),
+   (flavoured_names_are_pieces 105 (cps "s_you") (by decide) (by decide +kernel) (by decide +kernel)).1,
+   (flavoured_names_are_pieces 102 [] (by decide) (by decide) (by decide +kernel)).2⟩
+
+/-- `x = 0x1_F + 12 ;` and `s = "a // b" ;` with a comment: numbers and strings in a layout -/
+example :
+    let lines : List (List Piece × Line) :=
+      [([([], [120], .ident [120] .none), ([32], cps "=", .enum (enumName "=")), ([32, 32], cps "0x1_F", .int 31),
+         ([32], cps "+", .enum (enumName "+")), ([9], cps "12", .int 12), ([32], cps ";", .enum (enumName ";"))], [32, 47, 47, 34]),
+       ([([32], [115], .ident [115] .none), ([32], cps "=", .enum (enumName "=")), ([32], cps "\"a // b\"", .str [97, 32, 47, 47, 32, 98]),
+         ([32], cps "'q'", .chr 113), ([32], cps ";", .enum (enumName ";"))], [])]
+    (∀ l ∈ lines, WFLine l.1 l.2) ∧ (lex (lines.map render)).1.map (·.tok) = tokensOf lines := by
+  intro lines
+  have hx : SelfDelim [120] (.ident [120] .none) := selfDelim_ident 120 [] (by decide) (by decide) (by decide)
+  have hs : SelfDelim [115] (.ident [115] .none) := selfDelim_ident 115 [] (by decide) (by decide) (by decide)
+  have hhex : SelfDelim (cps "0x1_F") (.int 31) := selfDelim_hex 49 1 (by decide +kernel) [(true, 70)] (fun _ => 15) (by decide +kernel)
+  have hdec : SelfDelim (cps "12") (.int 12) := selfDelim_decimal 49 [(false, 50)] (by decide) (by decide)
+  have hstr : SelfDelim (cps "\"a // b\"") (.str [97, 32, 47, 47, 32, 98]) :=
+    selfDelim_string [97, 32, 47, 47, 32, 98] [[97], [32], [47], [47], [32], [98]] (by decide) (by decide)
+  have hchr : SelfDelim (cps "'q'") (.chr 113) := selfDelim_char 113 (by decide) (by decide) (by decide)
+  have hwf : ∀ l ∈ lines, WFLine l.1 l.2 := by
+    intro l hl
+    simp only [lines, List.mem_cons, List.not_mem_nil, or_false] at hl
+    rcases hl with rfl | rfl
+    · exact ⟨by decide, hx.readsAs (Or.inr ⟨32, _, rfl, by decide⟩), by decide, (selfDelim_symbol "=" (by decide)).readsAs (Or.inr ⟨32, _, rfl, by decide⟩),
+        by decide, hhex.readsAs (Or.inr ⟨32, _, rfl, by decide⟩), by decide, (selfDelim_symbol "+" (by decide)).readsAs (Or.inr ⟨9, _, rfl, by decide⟩),
+        by decide, hdec.readsAs (Or.inr ⟨32, _, rfl, by decide⟩), by decide, (selfDelim_symbol ";" (by decide)).readsAs (Or.inr ⟨32, _, rfl, by decide⟩),
+        Or.inr ⟨[32], [34], rfl, by decide⟩⟩
+    · exact ⟨by decide, hs.readsAs (Or.inr ⟨32, _, rfl, by decide⟩), by decide, (selfDelim_symbol "=" (by decide)).readsAs (Or.inr ⟨32, _, rfl, by decide⟩),
+        by decide, hstr.readsAs (Or.inr ⟨32, _, rfl, by decide⟩), by decide, hchr.readsAs (Or.inr ⟨32, _, rfl, by decide⟩),
+        by decide, (selfDelim_symbol ";" (by decide)).readsAs (Or.inl rfl), Or.inl (by decide)⟩
+  refine ⟨hwf, ?_⟩
+  rw [lex_layout lines hwf, lexemesFrom_toks]
+
 /-- a concrete laid-out source: `x1 <= ( y )  // c` then an empty line then `;` -/
 example :
     let x1 : Piece := ([32], [120, 49], .ident [120, 49] .none)
@@ -129,13 +233,103 @@ example :
     intro l hl
     simp only [lines, List.mem_cons, List.not_mem_nil, or_false] at hl
     rcases hl with rfl | rfl | rfl
-    · exact ⟨by decide, hx1, Or.inr ⟨9, _, rfl, by decide⟩, by decide, selfDelim_symbol "<=" (by decide), Or.inr ⟨32, _, rfl, by decide⟩,
-        by decide, selfDelim_symbol "(" (by decide), Or.inr ⟨32, _, rfl, by decide⟩, by decide, hy, Or.inr ⟨32, _, rfl, by decide⟩,
-        by decide, selfDelim_symbol ")" (by decide), Or.inr ⟨32, _, rfl, by decide⟩, Or.inr ⟨[32, 32], [32, 99], rfl, by decide⟩⟩
+    · exact ⟨by decide, hx1.readsAs (Or.inr ⟨9, _, rfl, by decide⟩), by decide, (selfDelim_symbol "<=" (by decide)).readsAs (Or.inr ⟨32, _, rfl, by decide⟩),
+        by decide, (selfDelim_symbol "(" (by decide)).readsAs (Or.inr ⟨32, _, rfl, by decide⟩), by decide, hy.readsAs (Or.inr ⟨32, _, rfl, by decide⟩),
+        by decide, (selfDelim_symbol ")" (by decide)).readsAs (Or.inr ⟨32, _, rfl, by decide⟩), Or.inr ⟨[32, 32], [32, 99], rfl, by decide⟩⟩
     · exact Or.inl (by decide)
-    · exact ⟨by decide, selfDelim_symbol ";" (by decide), Or.inr ⟨32, _, rfl, by decide⟩, Or.inl (by decide)⟩
+    · exact ⟨by decide, (selfDelim_symbol ";" (by decide)).readsAs (Or.inr ⟨32, _, rfl, by decide⟩), Or.inl (by decide)⟩
   refine ⟨hwf, ?_⟩
   rw [lex_layout lines hwf, lexemesFrom_toks]
   rfl
+
+/-! ## tokens that touch: `ReadsAs` without white space -/
+
+/-- maximal munch: a symbol reads as itself in front of any continuation of which no longer symbol is a prefix
+(and which does not turn it into a comment) … -/
+theorem touching_symbol (s : String) (hs : s ∈ symbolTokens) (rest : Line)
+    (hmax : ∀ s' ∈ symbolTokens, (cps s).length < (cps s').length → isPrefix (cps s') (cps s ++ rest) = false)
+    (hnc : ∀ r, cps s ++ rest ≠ 47 :: 47 :: r) : ReadsAs (cps s) (.enum (enumName s)) rest :=
+  readsAs_symbol s hs rest hmax hnc
+
+/-- … in particular whenever the next character is neither `=` nor `?` (and not `/` after `/`) -/
+theorem touching_symbol_next (s : String) (hs : s ∈ symbolTokens) (c : CP) (r : Line) (h1 : c ≠ 61) (h2 : c ≠ 63)
+    (h3 : cps s = [47] → c ≠ 47) : ReadsAs (cps s) (.enum (enumName s)) (c :: r) :=
+  readsAs_symbol_next s hs c r h1 h2 h3
+
+/-- a word (letter or `_`, then word characters) in front of anything that is not a word character reads as its
+keyword if it is one, else as a plain identifier; `@word` / `!word` for non-keywords likewise -/
+theorem touching_word (c : CP) (r : Line) (hc : isIdStart c = true) (hr : ∀ d ∈ r, isWord d = true) (rest : Line)
+    (hrest : NotWordNext rest) :
+    (∀ k, keywordOf (c :: r) = some k → ReadsAs (c :: r) (.enum k) rest) ∧
+    (keywordOf (c :: r) = none → ReadsAs (c :: r) (.ident (c :: r) .none) rest ∧
+      ReadsAs (64 :: c :: r) (.ident (c :: r) .you) rest ∧ ReadsAs (33 :: c :: r) (.ident (c :: r) .defeat) rest) := by
+  have h := readsAs_word c r hc hr rest hrest
+  refine ⟨fun k hk => by rw [hk] at h; exact h, fun hk => ⟨by rw [hk] at h; exact h,
+    readsAs_flavoured 64 .you (Or.inl ⟨rfl, rfl⟩) c r hc hr hk rest hrest,
+    readsAs_flavoured 33 .defeat (Or.inr ⟨rfl, rfl⟩) c r hc hr hk rest hrest⟩⟩
+
+/-- integer literals in front of anything that does not continue them (`Stops`: no digit of the class, no `_digit`;
+a lone `0` not before a base letter) -/
+theorem touching_decimal (c0 : CP) (tl : List (Bool × CP)) (h0 : asciiDigit c0) (htl : ∀ x ∈ tl, asciiDigit x.2) (rest : Line)
+    (hstop : Stops digitVal rest) (hzero : tl = [] → c0 = 48 → ∀ q r, rest = q :: r → q ≠ 120 ∧ q ≠ 111 ∧ q ≠ 98) :
+    ReadsAs (c0 :: renderTail tl) (.int (ofDigits 10 ((c0 - 48) :: tl.map (fun x => x.2 - 48)))) rest :=
+  readsAs_decimal c0 tl h0 htl rest hstop hzero
+
+theorem touching_hex (d0 : CP) (v0 : Nat) (h0 : hexVal d0 = some v0) (tl : List (Bool × CP)) (val : CP → Nat)
+    (hv : ∀ x ∈ tl, hexVal x.2 = some (val x.2)) (rest : Line) (hstop : Stops hexVal rest) :
+    ReadsAs (48 :: 120 :: d0 :: renderTail tl) (.int (ofDigits 16 (v0 :: tl.map (fun x => val x.2)))) rest :=
+  readsAs_prefixed 120 hexVal 16 (by decide +kernel) readInt_hex d0 v0 h0 tl val hv rest hstop
+
+theorem touching_oct_bin (d0 : CP) (v0 : Nat) (tl : List (Bool × CP)) (val : CP → Nat) (rest : Line) :
+    ((asciiIn 48 55 d0 = some v0 ∧ (∀ x ∈ tl, asciiIn 48 55 x.2 = some (val x.2)) ∧ Stops (asciiIn 48 55) rest) →
+      ReadsAs (48 :: 111 :: d0 :: renderTail tl) (.int (ofDigits 8 (v0 :: tl.map (fun x => val x.2)))) rest) ∧
+    ((asciiIn 48 49 d0 = some v0 ∧ (∀ x ∈ tl, asciiIn 48 49 x.2 = some (val x.2)) ∧ Stops (asciiIn 48 49) rest) →
+      ReadsAs (48 :: 98 :: d0 :: renderTail tl) (.int (ofDigits 2 (v0 :: tl.map (fun x => val x.2)))) rest) :=
+  ⟨fun h => readsAs_prefixed 111 (asciiIn 48 55) 8 (by decide) readInt_oct d0 v0 h.1 tl val h.2.1 rest h.2.2,
+   fun h => readsAs_prefixed 98 (asciiIn 48 49) 2 (by decide) readInt_bin d0 v0 h.1 tl val h.2.1 rest h.2.2⟩
+
+/-- string literals (with simple and hex escapes) and plain character literals read the same in front of anything -/
+theorem touching_quoted (rest : Line) :
+    (∀ (segs : List Seg) (last : Line) (lenc : List (List Nat)), (∀ s ∈ segs, SegOK s) → (∀ c ∈ last, c ≠ 92 ∧ c ≠ 34) →
+      last.mapM utf8 = some lenc → ReadsAs (34 :: (bodyText segs ++ (last ++ [34]))) (.str (bodyBytes segs ++ lenc.flatten)) rest) ∧
+    (∀ c, c ≠ 39 → c ≠ 92 → c < 128 → ReadsAs [39, c, 39] (.chr c) rest) :=
+  ⟨fun segs last lenc hs hl hlenc => readsAs_string_esc segs hs last lenc hl hlenc rest, fun c h1 h2 h3 => readsAs_char c h1 h2 h3 rest⟩
+
+/-- `f(x1)+=0x1F;//c` and `while(n<=10)"a b"` : no white space anywhere between the tokens -/
+example :
+    let lines : List (List Piece × Line) :=
+      [([([], [102], .ident [102] .none), ([], cps "(", .enum (enumName "(")), ([], [120, 49], .ident [120, 49] .none),
+         ([], cps ")", .enum (enumName ")")), ([], cps "+=", .enum (enumName "+=")), ([], cps "0x1F", .int 31),
+         ([], cps ";", .enum (enumName ";"))], cps "//c"),
+       ([([], cps "while", .enum "BlockToken.WHILE"), ([], cps "(", .enum (enumName "(")), ([], [110], .ident [110] .none),
+         ([], cps "<=", .enum (enumName "<=")), ([], cps "10", .int 10), ([], cps ")", .enum (enumName ")")),
+         ([], cps "\"a b\"", .str [97, 32, 98])], [])]
+    (∀ l ∈ lines, WFLine l.1 l.2) ∧ (lex (lines.map render)).1.map (·.tok) = tokensOf lines
+      ∧ lines.map render = [cps "f(x1)+=0x1F;//c", cps "while(n<=10)\"a b\""] := by
+  intro lines
+  have hwf : ∀ l ∈ lines, WFLine l.1 l.2 := by
+    intro l hl
+    simp only [lines, List.mem_cons, List.not_mem_nil, or_false] at hl
+    rcases hl with rfl | rfl
+    · exact ⟨by decide, ((touching_word 102 [] (by decide) (by decide) _ (Or.inr ⟨40, _, rfl, by decide +kernel⟩)).2 (by decide +kernel)).1,
+        by decide, touching_symbol_next "(" (by decide) 120 _ (by decide) (by decide) (fun h => absurd h (by decide)),
+        by decide, ((touching_word 120 [49] (by decide) (by decide +kernel) _ (Or.inr ⟨41, _, rfl, by decide +kernel⟩)).2 (by decide +kernel)).1,
+        by decide, touching_symbol_next ")" (by decide) 43 _ (by decide) (by decide) (fun h => absurd h (by decide)),
+        by decide, touching_symbol_next "+=" (by decide) 48 _ (by decide) (by decide) (fun h => absurd h (by decide)),
+        by decide, touching_hex 49 1 (by decide +kernel) [(false, 70)] (fun _ => 15) (by decide +kernel) _
+          ⟨by decide +kernel, fun h => absurd h (by decide)⟩,
+        by decide, touching_symbol_next ";" (by decide) 47 _ (by decide) (by decide) (fun h => absurd h (by decide)),
+        Or.inr ⟨[], [99], rfl, by decide⟩⟩
+    · exact ⟨by decide, (touching_word 119 (cps "hile") (by decide) (by decide +kernel) _ (Or.inr ⟨40, _, rfl, by decide +kernel⟩)).1 _ (by decide +kernel),
+        by decide, touching_symbol_next "(" (by decide) 110 _ (by decide) (by decide) (fun h => absurd h (by decide)),
+        by decide, ((touching_word 110 [] (by decide) (by decide) _ (Or.inr ⟨60, _, rfl, by decide +kernel⟩)).2 (by decide +kernel)).1,
+        by decide, touching_symbol_next "<=" (by decide) 49 _ (by decide) (by decide) (fun h => absurd h (by decide)),
+        by decide, touching_decimal 49 [(false, 48)] (by decide) (by decide) _ ⟨by decide +kernel, fun h => absurd h (by decide)⟩
+          (fun h => absurd h (by decide)),
+        by decide, touching_symbol_next ")" (by decide) 34 _ (by decide) (by decide) (fun h => absurd h (by decide)),
+        by decide, (touching_quoted []).1 [] [97, 32, 98] [[97], [32], [98]] (fun _ h => absurd h (by simp)) (by decide) (by decide),
+        Or.inl (by decide)⟩
+  refine ⟨hwf, ?_, by decide⟩
+  rw [lex_layout lines hwf, lexemesFrom_toks]
 
 end HidVerif.Props.C12
